@@ -15,6 +15,7 @@ import itertools
 import json
 
 import appcheck
+import common
 import appsim
 from appsim import TPS, CBS
 
@@ -124,8 +125,38 @@ def silent_extra(ctx, sc, r):
                     f"trace …{r['trace'][-300:]}", size=appcheck.size_of(sc))
 
 
+_RESUMES = []
+
+
+def skeleton_of(trace):
+    """the network skeleton of a canonical trace (dial / sleep / sockClosed / ret), `sockDropped` left out."""
+    keep = ("dial:", "sleep:", "sockClosed:", "ret:")
+    return ";".join(it for it in (trace.split(";") if trace else []) if it.partition(":")[2].startswith(keep)) or "-"
+
+
+def resumes_check(ctx):
+    """the closed form of theorem C15c.C15_resumes_closed_form (driver op `s-c15-resumes` = Lemmas.App.resumesOfWorld) against the
+    REAL runs collected by `extra`: every world of the theorem's shape (>= 1 attempt that fails or is established-then-lost,
+    then a connection the server closes; callbacks that return; keepalive off; built-in loop)."""
+    global _RESUMES
+    todo, _RESUMES = _RESUMES, []
+    if not todo:
+        return
+    out = common.run_driver_parallel([f"s-c15-resumes {sc['rc']} {appsim.enc_runs(sc['runs'])}" for sc, _ in todo])
+    for (sc, tr), closed in zip(todo, out):
+        if closed == "n/a":
+            continue
+        ctx.traces_vs_impl += 1
+        ctx.case(key="resumes|" + json.dumps(sc, sort_keys=True), nontrivial=True, cls="closed-form:C15_resumes")
+        if closed.startswith("bad") or skeleton_of(tr) != closed:
+            ctx.violate("retry", appcheck.qualify("skeleton-differs-from-C15_resumes", sc), sc, closed, skeleton_of(tr), size=appcheck.size_of(sc))
+
+
 def extra(ctx, sc, r):
     n = appcheck.size_of(sc)
+    if sc.get("kind") in ("seq", "special") and sc.get("rc") and not sc.get("iv") and not sc.get("plan") and not sc.get("ext") \
+            and len(sc["runs"]) == 1 and r["abort"] == "main-finished":
+        _RESUMES.append((sc, r["trace"]))
     halfdead_extra(ctx, sc, r)
     silent_extra(ctx, sc, r)
     announce_extra(ctx, sc, r)
@@ -409,6 +440,7 @@ def run(ctx):
         appcheck.evaluate(ctx, "C15", corp, cls_of=lambda sc: "corpus", extra_check=extra, model=False)
     appcheck.evaluate(ctx, "C15", scenarios(ctx), cls_of=cls_of, extra_check=extra,
                       nontrivial_of=lambda sc: len(sc["runs"][0]) > 1)
+    resumes_check(ctx)
     appcheck.evaluate(ctx, "C15", external_scenarios(ctx), cls_of=cls_of, extra_check=external_extra, model=False,
                       nontrivial_of=lambda sc: len(sc["runs"][0]) > 1)
     appcheck.evaluate(ctx, "C15", closer_scenarios(ctx), cls_of=cls_of, extra_check=closer_extra, model=False,
